@@ -481,7 +481,7 @@ func randSReq(rng *hx.Rng, depth int, ngroups int) SReq {
 
 // genRandom: everything mixed.
 func genRandom(r *runner, rng *hx.Rng, thorough bool) {
-	n := 1600
+	n := 1300
 	if thorough {
 		n = 6000
 	}
